@@ -319,3 +319,273 @@ Proof.
   destruct (check_header_sound _ _ _ Hc) as (org & evt & gs & t & j & c & r & _ & _ & _ & -> & _).
   apply hdr_text_nonempty.
 Qed.
+
+(** * Re-parsing the stored text *)
+Lemma hdr_text_Hdr org evt groups tttt jjj call rest s :
+  Hdr s org evt groups tttt jjj call rest ->
+  Hdr (hdr_text org evt groups tttt jjj call) org evt groups tttt jjj call [].
+Proof.
+  intros [_ Ho He Hg Ht Hj Hc]. constructor; try assumption. unfold hdr_text. reflexivity.
+Qed.
+
+Lemma is_ascii_firstn n s : is_ascii s = true -> is_ascii (firstn n s) = true.
+Proof.
+  unfold is_ascii. revert s. induction n as [|n IH]; intros [|c s]; cbn [firstn forallb]; try reflexivity.
+  intros E. apply andb_prop in E. destruct E as [-> E]. apply IH, E.
+Qed.
+
+Theorem header_reparse s h : header_new s = Ok h -> header_new (h_text h) = Ok h.
+Proof.
+  intros E. destruct (header_new_ok_inv _ _ E) as (Ha & n & Hc & Ht & Hp & Hv).
+  destruct (check_header_sound _ _ _ Hc) as (org & evt & gs & t & j & c & r & HH & Hot & Hn & Hfn & _).
+  pose proof (hdr_text_Hdr _ _ _ _ _ _ _ _ HH) as HH'.
+  destruct (check_header_complete _ _ _ _ _ _ _ _ HH') as (k' & Hk' & Hc').
+  (* the re-parsed callsign cannot be longer: the text ends right after it *)
+  assert (k' = length c) as ->.
+  { destruct (check_header_inv _ _ _ Hc')
+      as (s1 & s2 & s3 & s4 & nl & s5 & s6 & s7 & s8 & s9 & s10 & k &
+          E1 & E2 & E3 & E4 & E5 & E6 & E7 & E8 & E9 & E10 & E11 & Eot & En).
+    destruct HH' as [_ [Ho1 Ho2] [He1 He2] [Hg1 Hg2] [Ht1 Ht2] [Hj1 Hj2] [Hc1 Hc2]].
+    unfold hdr_text in E1. rewrite strip_prefix_app in E1. inversion E1; subst s1; clear E1.
+    rewrite (take_n_app' _ _ _ _ Ho1 Ho2) in E2. inversion E2; subst s2; clear E2.
+    cbn [app strip_prefix] in E3; rewrite ?N.eqb_refl in E3. inversion E3; subst s3; clear E3.
+    rewrite (take_n_app' _ _ _ _ He1 He2) in E4. inversion E4; subst s4; clear E4.
+    rewrite (take_locs_app gs _ Hg2) in E5 by (cbn; unfold DASH, PLUS; lia).
+    inversion E5; subst s5; clear E5.
+    cbn [app strip_prefix] in E6; rewrite ?N.eqb_refl in E6. inversion E6; subst s6; clear E6.
+    rewrite (take_n_app' _ _ _ _ Ht1 Ht2) in E7. inversion E7; subst s7; clear E7.
+    cbn [app strip_prefix] in E8; rewrite ?N.eqb_refl in E8. inversion E8; subst s8; clear E8.
+    rewrite (take_n_app' _ _ _ _ Hj1 Hj2) in E9. inversion E9; subst s9; clear E9.
+    cbn [app strip_prefix] in E10; rewrite ?N.eqb_refl in E10. inversion E10; subst s10; clear E10.
+    assert (k = k') as <- by lia.
+    destruct (find_call_inv _ _ E11) as (_ & Hok & _).
+    unfold call_ok in Hok. apply andb_prop in Hok. destruct Hok as [Hok _].
+    apply andb_prop in Hok. destruct Hok as [Hok _].
+    rewrite app_length in Hok. cbn [length] in Hok.
+    destruct (nth_error (c ++ [DASH]) k) eqn:En'; [|].
+    - assert (k < length (c ++ [DASH]))%nat by (apply nth_error_Some; congruence).
+      rewrite app_length in *. cbn [length] in *. lia.
+    - apply find_call_inv in E11. destruct E11 as (_ & Hok' & _). unfold call_ok in Hok'.
+      rewrite En' in Hok'. rewrite andb_false_r in Hok'. discriminate. }
+  unfold header_new. rewrite Ht. rewrite (is_ascii_firstn n s Ha). cbn [negb].
+  rewrite Hfn, Hc'. f_equal.
+  assert (firstn (12 + 7 * length gs + 14 + length c + 1) (hdr_text org evt gs t j c)
+          = hdr_text org evt gs t j c) as ->.
+  { apply firstn_all2. unfold hdr_text.
+    destruct HH as [_ [Ho _] [He _] [_ Hg] [Ht' _] [Hj _] _].
+    repeat rewrite app_length. rewrite (concat_groups_length gs Hg), Ho, He, Ht', Hj.
+    cbn [length PREFIX_MESSAGE_START]. unfold bytes in *. lia. }
+  destruct h as [tx ot pa vo]. cbn [h_text h_offset_time h_parity h_voting] in *.
+  subst. rewrite Hfn. reflexivity.
+Qed.
+
+(** * Non-ASCII input *)
+Theorem header_new_non_ascii s : is_ascii s = false -> header_new s = Err NotAscii.
+Proof. intros E. unfold header_new. rewrite E. reflexivity. Qed.
+
+Theorem message_bytes_invalid_utf8 s e c :
+  valid_utf8 s = false -> message_try_from_bytes s e c = Err NotAscii.
+Proof. intros E. unfold message_try_from_bytes. rewrite E. reflexivity. Qed.
+
+Theorem message_str_dispatch s :
+  message_try_from_str s =
+  if starts_with PREFIX_MESSAGE_START s then
+    (if is_ascii s then
+       match check_header s with
+       | Some (ot, n) => Ok (SOM (mkHeader (firstn n s) ot 0 0))
+       | None => Err Malformed
+       end
+     else Err NotAscii)
+  else if starts_with PREFIX_EOM2 s then Ok EOM else Err UnrecognizedPrefix.
+Proof.
+  unfold message_try_from_str, header_new.
+  destruct (starts_with PREFIX_MESSAGE_START s); [|reflexivity].
+  destruct (is_ascii s); cbn [negb]; [|reflexivity].
+  destruct (check_header s) as [[ot n]|]; reflexivity.
+Qed.
+
+(** * Accessors never panic and return exactly the grammar components *)
+Definition dec (ds : bytes) : N := fold_left (fun a d => a * 10 + (d - 48)) ds 0.
+
+Lemma slice_mid site (pre mid post : bytes) a b :
+  length pre = a -> (a + length mid = b)%nat -> slice site a b (pre ++ mid ++ post) = Done mid.
+Proof.
+  intros <- <-. unfold slice.
+  assert ((length pre <=? length pre + length mid)%nat
+          && (length pre + length mid <=? length (pre ++ mid ++ post))%nat = true) as ->.
+  { rewrite !app_length. lia. }
+  rewrite skipn_app, skipn_all, Nat.sub_diag. cbn [skipn app].
+  replace (length pre + length mid - length pre)%nat with (length mid) by lia.
+  rewrite firstn_app_exact by reflexivity. reflexivity.
+Qed.
+
+Lemma split_on_nosep sep : forall d cur rest,
+  forallb (fun c => negb (c =? sep)) d = true ->
+  split_on sep cur (d ++ rest) = split_on sep (rev d ++ cur) rest.
+Proof.
+  induction d as [|c d IH]; intros cur rest; [reflexivity|].
+  cbn [forallb app split_on rev]. intros E. apply andb_prop in E. destruct E as [E1 E2].
+  destruct (c =? sep); [discriminate|]. rewrite IH by exact E2. rewrite <- app_assoc. reflexivity.
+Qed.
+
+Lemma digits_no_dash d : forallb is_digit d = true -> forallb (fun c => negb (c =? DASH)) d = true.
+Proof.
+  induction d as [|c d IH]; [reflexivity|]. cbn [forallb]. intros E.
+  apply andb_prop in E. destruct E as [E1 E2]. rewrite (IH E2).
+  unfold is_digit, DASH in *. lia.
+Qed.
+
+(** splitting "d1-d2-...-dn" at the dashes gives back the groups *)
+Lemma split_groups : forall gs d cur,
+  forallb is_digit d = true -> Forall loc_group gs ->
+  split_on DASH cur (d ++ concat gs) = (rev cur ++ d) :: map (@tl N) gs.
+Proof.
+  induction gs as [|g gs IH]; intros d cur Hd Hg.
+  - cbn [concat map]. rewrite split_on_nosep by (apply digits_no_dash, Hd).
+    cbn [split_on]. rewrite rev_app_distr, rev_involutive. reflexivity.
+  - inversion Hg as [|? ? (d' & -> & Hl & Hd') Hg']; subst.
+    cbn [concat map tl]. rewrite split_on_nosep by (apply digits_no_dash, Hd).
+    cbn [app split_on]. rewrite N.eqb_refl. rewrite rev_app_distr, rev_involutive. f_equal.
+    rewrite (IH d' [] Hd' Hg'). reflexivity.
+Qed.
+
+Lemma parse2 a b max : is_digit a = true -> is_digit b = true -> 99 <= max ->
+  parse_uint max [a; b] = Some (dec [a; b]).
+Proof.
+  intros Ha Hb Hm. unfold parse_uint, dec.
+  assert ((a =? PLUS) = false) as -> by (unfold is_digit, PLUS in *; lia).
+  cbn [fold_left forallb]. rewrite Ha, Hb. cbn [andb].
+  assert ((0 * 10 + (a - 48)) * 10 + (b - 48) <=? max = true) as ->
+    by (unfold is_digit in *; lia).
+  reflexivity.
+Qed.
+
+Lemma parse3 a b c max : is_digit a = true -> is_digit b = true -> is_digit c = true -> 999 <= max ->
+  parse_uint max [a; b; c] = Some (dec [a; b; c]).
+Proof.
+  intros Ha Hb Hc Hm. unfold parse_uint, dec.
+  assert ((a =? PLUS) = false) as -> by (unfold is_digit, PLUS in *; lia).
+  cbn [fold_left forallb]. rewrite Ha, Hb, Hc. cbn [andb].
+  assert (((0 * 10 + (a - 48)) * 10 + (b - 48)) * 10 + (c - 48) <=? max = true) as ->
+    by (unfold is_digit in *; lia).
+  reflexivity.
+Qed.
+
+Theorem accessors_faithful h org evt groups t1 t2 t3 t4 j1 j2 j3 j4 j5 j6 j7 call :
+  let tttt := [t1; t2; t3; t4] in
+  let jjj := [j1; j2; j3; j4; j5; j6; j7] in
+  h_text h = hdr_text org evt groups tttt jjj call ->
+  h_offset_time h = (12 + 7 * length groups)%nat ->
+  Hdr (h_text h) org evt groups tttt jjj call [] ->
+  originator_str h = Done org
+  /\ event_str h = Done evt
+  /\ locations h = Done (map (@tl N) groups)
+  /\ valid_duration_fields h = Done (dec [t1; t2], dec [t3; t4])
+  /\ issue_daytime_fields h = Done (dec [j1; j2; j3], dec [j4; j5], dec [j6; j7])
+  /\ callsign h = Done call.
+Proof.
+  intros tttt jjj Htx Hot [_ [Ho1 Ho2] [He1 He2] [Hg1 Hg2] [Ht1 Ht2] [Hj1 Hj2] [Hc1 Hc2]].
+  pose proof (concat_groups_length groups Hg2) as Hcl.
+  repeat split.
+  - unfold originator_str. rewrite Htx. unfold hdr_text.
+    apply slice_mid; [reflexivity|]. unfold OFFSET_ORG. lia.
+  - unfold event_str. rewrite Htx. unfold hdr_text.
+    rewrite (app_assoc _ org), (app_assoc _ [DASH]).
+    apply slice_mid; [rewrite !app_length, Ho1; reflexivity|]. unfold OFFSET_EVT. lia.
+  - unfold locations, location_str. rewrite Htx, Hot. unfold hdr_text.
+    destruct groups as [|g gs]; [contradiction|].
+    inversion Hg2 as [|? ? (d & -> & Hdl & Hdd) Hg2']; subst.
+    cbn [concat].
+    match goal with |- obind (slice 3 _ _ ?big) _ = _ =>
+      replace big
+        with ((PREFIX_MESSAGE_START ++ org ++ [DASH] ++ evt ++ [DASH]) ++ (d ++ concat gs) ++ ([PLUS] ++ tttt
+               ++ [DASH] ++ jjj ++ [DASH] ++ call ++ [DASH]))
+        by (repeat (rewrite <- app_assoc || rewrite <- app_comm_cons); cbn [app]; reflexivity)
+    end.
+    rewrite slice_mid.
+    2:{ rewrite !app_length, Ho1, He1. reflexivity. }
+    2:{ rewrite app_length, Hdl, (concat_groups_length gs Hg2'). unfold OFFSET_AREA_START. cbn [length PREFIX_MESSAGE_START]. unfold bytes in *. lia. }
+    cbn [obind]. rewrite (split_groups gs d [] Hdd Hg2'). reflexivity.
+  - unfold valid_duration_fields. rewrite Htx, Hot. unfold hdr_text.
+    replace (PREFIX_MESSAGE_START ++ org ++ [DASH] ++ evt ++ concat groups ++ [PLUS] ++ tttt
+               ++ [DASH] ++ jjj ++ [DASH] ++ call ++ [DASH])
+      with ((PREFIX_MESSAGE_START ++ org ++ [DASH] ++ evt ++ concat groups ++ [PLUS]) ++ tttt
+               ++ ([DASH] ++ jjj ++ [DASH] ++ call ++ [DASH]))
+      by (repeat rewrite <- app_assoc; reflexivity).
+    rewrite slice_mid.
+    2:{ rewrite !app_length, Ho1, He1, Hcl. unfold OFFSET_FROMPLUS_VALIDTIME. cbn [length PREFIX_MESSAGE_START]. unfold bytes in *. lia. }
+    2:{ cbn [length tttt]. lia. }
+    cbn [obind]. unfold tttt in *. cbn [forallb] in Ht2.
+    change (slice 5 0 2 [t1; t2; t3; t4]) with (Done (A:=bytes) [t1; t2]).
+    change (slice 7 2 4 [t1; t2; t3; t4]) with (Done (A:=bytes) [t3; t4]). cbn [obind].
+    rewrite (parse2 t1 t2 255), (parse2 t3 t4 255) by lia. reflexivity.
+  - unfold issue_daytime_fields. rewrite Htx, Hot. unfold hdr_text.
+    replace (PREFIX_MESSAGE_START ++ org ++ [DASH] ++ evt ++ concat groups ++ [PLUS] ++ tttt
+               ++ [DASH] ++ jjj ++ [DASH] ++ call ++ [DASH])
+      with ((PREFIX_MESSAGE_START ++ org ++ [DASH] ++ evt ++ concat groups ++ [PLUS] ++ tttt ++ [DASH]) ++ jjj
+               ++ ([DASH] ++ call ++ [DASH]))
+      by (repeat rewrite <- app_assoc; reflexivity).
+    rewrite slice_mid.
+    2:{ rewrite !app_length, Ho1, He1, Hcl. unfold OFFSET_FROMPLUS_ISSUETIME. cbn [length PREFIX_MESSAGE_START]. unfold bytes in *. lia. }
+    2:{ cbn [length jjj]. lia. }
+    cbn [obind]. unfold jjj in *. cbn [forallb] in Hj2.
+    change (slice 10 0 3 [j1; j2; j3; j4; j5; j6; j7]) with (Done (A:=bytes) [j1; j2; j3]).
+    change (slice 12 3 5 [j1; j2; j3; j4; j5; j6; j7]) with (Done (A:=bytes) [j4; j5]).
+    change (slice 14 5 7 [j1; j2; j3; j4; j5; j6; j7]) with (Done (A:=bytes) [j6; j7]). cbn [obind].
+    rewrite (parse3 j1 j2 j3 65535), (parse2 j4 j5 255), (parse2 j6 j7 255) by lia. reflexivity.
+  - unfold callsign. rewrite Htx, Hot. unfold hdr_text.
+    match goal with |- (if (?l <? _)%nat then _ else _) = _ =>
+      assert ((l <? OFFSET_FROMEND_CALLSIGN_END)%nat = false) as ->
+    end.
+    { rewrite !app_length. cbn [length]. unfold OFFSET_FROMEND_CALLSIGN_END. lia. }
+    replace (PREFIX_MESSAGE_START ++ org ++ [DASH] ++ evt ++ concat groups ++ [PLUS] ++ tttt
+               ++ [DASH] ++ jjj ++ [DASH] ++ call ++ [DASH])
+      with ((PREFIX_MESSAGE_START ++ org ++ [DASH] ++ evt ++ concat groups ++ [PLUS] ++ tttt ++ [DASH] ++ jjj
+               ++ [DASH]) ++ call ++ [DASH])
+      by (repeat rewrite <- app_assoc; reflexivity).
+    apply slice_mid.
+    + rewrite !app_length, Ho1, He1, Hcl. unfold OFFSET_FROMPLUS_CALLSIGN. cbn [length PREFIX_MESSAGE_START]. unfold bytes in *. lia.
+    + rewrite !app_length, Ho1, He1, Hcl, Ht1, Hj1. unfold OFFSET_FROMEND_CALLSIGN_END, OFFSET_FROMPLUS_CALLSIGN. cbn [length PREFIX_MESSAGE_START]. unfold bytes in *. lia.
+Qed.
+
+Lemma length4 {A} (l : list A) : length l = 4%nat -> exists a b c d, l = [a; b; c; d].
+Proof. destruct l as [|a [|b [|c [|d [|]]]]]; try discriminate. intros _. eauto. Qed.
+Lemma length7 {A} (l : list A) : length l = 7%nat -> exists a b c d e f g, l = [a; b; c; d; e; f; g].
+Proof. destruct l as [|a [|b [|c [|d [|e [|f [|g [|]]]]]]]]; try discriminate. intros _. eexists _,_,_,_,_,_,_. reflexivity. Qed.
+
+(** everything the constructor accepts has the grammar's shape, stores exactly the
+    matched prefix, and every accessor returns the corresponding component *)
+Theorem header_new_faithful s h :
+  header_new s = Ok h ->
+  exists org evt groups t1 t2 t3 t4 j1 j2 j3 j4 j5 j6 j7 call rest,
+    Hdr s org evt groups [t1; t2; t3; t4] [j1; j2; j3; j4; j5; j6; j7] call rest
+    /\ h_text h = hdr_text org evt groups [t1; t2; t3; t4] [j1; j2; j3; j4; j5; j6; j7] call
+    /\ s = h_text h ++ rest
+    /\ originator_str h = Done org
+    /\ event_str h = Done evt
+    /\ locations h = Done (map (@tl N) groups)
+    /\ valid_duration_fields h = Done (dec [t1; t2], dec [t3; t4])
+    /\ issue_daytime_fields h = Done (dec [j1; j2; j3], dec [j4; j5], dec [j6; j7])
+    /\ callsign h = Done call.
+Proof.
+  intros E. destruct (header_new_ok_inv _ _ E) as (Ha & n & Hc & Ht & _ & _).
+  destruct (check_header_sound _ _ _ Hc) as (org & evt & gs & t & j & c & r & HH & Hot & Hn & Hfn & _).
+  destruct (length4 t) as (t1 & t2 & t3 & t4 & ->); [apply HH|].
+  destruct (length7 j) as (j1 & j2 & j3 & j4 & j5 & j6 & j7 & ->); [apply HH|].
+  exists org, evt, gs, t1, t2, t3, t4, j1, j2, j3, j4, j5, j6, j7, c, r.
+  rewrite Hfn in Ht. split; [exact HH|]. split; [exact Ht|]. split.
+  { destruct HH as [Hs _ _ _ _ _ _]. rewrite Hs, Ht. unfold hdr_text.
+    repeat rewrite <- app_assoc. reflexivity. }
+  apply accessors_faithful; [exact Ht|exact Hot|].
+  rewrite Ht. eapply hdr_text_Hdr, HH.
+Qed.
+
+(** the counters do not affect text, offsets or accessors *)
+Lemma header_new_with_error_info_inv s errs counts h :
+  header_new_with_error_info s errs counts = Ok h ->
+  exists h0, header_new s = Ok h0 /\ h_text h = h_text h0 /\ h_offset_time h = h_offset_time h0.
+Proof.
+  unfold header_new_with_error_info, header_new_with_errors.
+  destruct (header_new s) as [h0|]; [|discriminate]. intros E. inversion E; subst.
+  exists h0. repeat split.
+Qed.
